@@ -156,6 +156,7 @@ class Check:
                 agg["failures"].append(f)
             if len(agg["samples"]) < 3:
                 agg["samples"].extend(out["samples"][: 3 - len(agg["samples"])])
+            agg.setdefault("harness_traces", []).extend(out.get("harness_traces", [])[:2])
             if out["stopped_early"]:
                 agg["stopped_early"] += 1
         agg["wall"] = time.monotonic() - t0
@@ -315,6 +316,9 @@ class Check:
             "samples": agg["samples"][:3] or [{"note": "no short non-trivial run sampled"}],
             "operations_executed": agg["ops"],
             "simulated_steps": agg["steps"],
+            "simulated_time_covered": {"note": "this codebase has no timers: simulated time is counted in steps, not seconds",
+                                       "api_operations": agg["ops"], "engine_steps": agg["steps"],
+                                       "simulated_clock_reads": agg["faults"].get("clock_read", 0)},
             "runs_per_hour": int(runs / hours) if runs else 0,
             "seeds_per_hour": int(runs / hours) if runs else 0,
             "faults_fired": dict(sorted(agg["faults"].items())),
@@ -379,6 +383,13 @@ class Check:
             if agg["runs"] == 0 and not nviol:
                 self.say("HARNESS-ERROR: no runs executed")
                 return EXIT_HARNESS
+            nh = sum(v for k, v in agg["discarded"].items() if k.startswith("harness_exception"))
+            if nh:
+                self.say("warning: %d run(s) were discarded because the HARNESS raised inside them (not a verdict about the repository); first trace:\n%s" %
+                         (nh, (agg.get("harness_traces") or [{}])[0].get("trace", "")))
+                if nh > max(20, agg["runs"] // 2000):
+                    self.say("HARNESS-ERROR: too many harness exceptions")
+                    return EXIT_HARNESS
             self.variant = "+".join(st["variant"] for st in stages)
             extra_cov["per_stage"] = agg.get("per_stage", {})
             ev = self.write_evidence(agg, nviol, nknown, wall, extra_cov)
@@ -401,6 +412,7 @@ def merge_agg(a, b):
         for k, v in b[key].items():
             a[key][k] = a[key].get(k, 0) + v
     a["samples"] = (a["samples"] + b["samples"])[:3]
+    a["harness_traces"] = (a.get("harness_traces", []) + b.get("harness_traces", []))[:4]
     a["per_stage"].update(b["per_stage"])
     return a
 
